@@ -128,15 +128,60 @@ def _job(args):
     return ctx
 
 
+def _robust_map(fn, items: list, procs: int) -> list:
+    """pool.map that survives a worker dying under it (a segfault or the OOM killer inside the code under test): multiprocessing.Pool
+    would then wait for the lost task for ever.  Unfinished items are re-run; items that were running when the pool broke are re-tried
+    one by one, and an item that kills its worker again yields None (the caller records the run as refused)."""
+    import concurrent.futures as cf
+    from concurrent.futures.process import BrokenProcessPool
+    ctxm = mp.get_context('fork')
+    results = [None] * len(items)
+    done = set()
+    pending = list(range(len(items)))
+    while pending:
+        ex = cf.ProcessPoolExecutor(max_workers=max(1, min(procs, len(pending))), mp_context=ctxm)
+        futs = {ex.submit(fn, items[i]): i for i in pending}
+        broke = False
+        suspects = []
+        try:
+            for f in cf.as_completed(futs):
+                i = futs[f]
+                try:
+                    results[i] = f.result()
+                    done.add(i)
+                except BrokenProcessPool:
+                    broke = True
+                    break
+        finally:
+            if broke:
+                suspects = [i for f, i in futs.items() if i not in done and (f.running() or f.done())]
+            ex.shutdown(wait=False, cancel_futures=True)
+        pending = [i for i in pending if i not in done]
+        if broke:
+            for i in (suspects or pending[:1]):
+                if i in done:
+                    continue
+                one = cf.ProcessPoolExecutor(max_workers=1, mp_context=ctxm)
+                try:
+                    results[i] = one.submit(fn, items[i]).result()
+                except BrokenProcessPool:
+                    results[i] = None
+                finally:
+                    one.shutdown(wait=False, cancel_futures=True)
+                done.add(i)
+            pending = [i for i in pending if i not in done]
+    return results
+
+
 def run_many(jobs: list, projector_ref: str, procs: int = 16, keep_report: bool = False) -> list:
     """jobs: list of (tag, input text).  projector_ref: 'package.module:function' importable in the workers."""
     if not jobs:
         return []
     args = [(text, projector_ref, tag) for tag, text in jobs]
-    ctxm = mp.get_context('fork')
-    procs = max(1, min(procs, len(args)))
-    with ctxm.Pool(procs, maxtasksperchild=200) as pool:
-        res = pool.map(_job, args, chunksize=max(1, len(args) // (procs * 8)))
+    res = _robust_map(_job, args, procs)
+    for k, r in enumerate(res):
+        if r is None:      # the run killed its worker process twice: a crash of the code under test on this input
+            res[k] = {'tag': args[k][2], 'status': 'rejected', 'error': 'worker process died (crash inside the simulator)', 'stages': [], 'input': args[k][0]}
     if not keep_report:
         for r in res:
             r.pop('report', None)
@@ -148,10 +193,11 @@ def call_in_pool(fn_ref: str, items: list, procs: int = 16) -> list:
     """Generic fan-out: fn_ref = 'module:function' applied to each item in worker processes."""
     if not items:
         return []
-    ctxm = mp.get_context('fork')
-    procs = max(1, min(procs, len(items)))
-    with ctxm.Pool(procs, maxtasksperchild=500) as pool:
-        return pool.map(_call, [(fn_ref, it) for it in items], chunksize=max(1, len(items) // (procs * 8)))
+    res = _robust_map(_call, [(fn_ref, it) for it in items], procs)
+    if any(r is None for r in res):
+        from .common import MachineryFailure
+        raise MachineryFailure(f'{fn_ref}: a worker process died twice on the same item')
+    return res
 
 
 def _call(a):
